@@ -284,6 +284,18 @@ func decodeProp(prop string) *Prop {
 			Run: func(c *Ctx) { zoneHistoryRun(c, prop) },
 		},
 		{
+			// ISOBMFF: the last child of a container cut short by its parent (0..24 bytes, every
+			// kind of size field) at offsets next to the multiples of the readers' buffer size
+			Name: "boxedge", Phase: 1, Weight: 1,
+			N: func(tier string, seed uint64) uint64 {
+				if tier == "thorough" {
+					return 3000000
+				}
+				return 120000
+			},
+			Run: func(c *Ctx) { decodeMixed(c, prop, 6) },
+		},
+		{
 			// one token far longer than any look-ahead window (an XMP value or padding run of
 			// 70..700 KB), alone or inside a CR3 xpacket box: work and allocation stay linear
 			Name: "bigtoken", Phase: 1, Weight: 1,
@@ -503,7 +515,39 @@ func decodeMixed(c *Ctx, prop string, class int) {
 	var e *harness.Entry
 	hi := 0
 	random := class == 1
-	if class == 4 {
+	if class == 6 {
+		// a container's last child cut short by its parent, placed next to a multiple of the
+		// pooled readers' 4 KiB buffer (where its header is split between two fills) or anywhere
+		var o gengen.EdgeOpts
+		o.Layout = gen.Intn(4)
+		edge := []int{4096, 4096, 8192, 12288, 2048, 1024}[gen.Intn(6)]
+		if gen.Chance(1, 8) {
+			o.At = 64 + gen.Intn(9000)
+		} else {
+			o.At = edge - 26 + gen.Intn(36)
+		}
+		o.Remain = gen.Intn(25)
+		if gen.Chance(2, 3) {
+			o.Remain = 7 + gen.Intn(10)
+		}
+		o.Size = []uint32{1, 0, 8, 16, 2, 7, 9, 12, 24, 0xffffffff, 0x7fffffff, 4096}[gen.Intn(12)]
+		if gen.Chance(1, 6) {
+			o.Size = uint32(o.Remain)
+		}
+		o.Type = []string{"free", "CMT1", "uuid", "moov", "meta", "iloc", "iinf", "CTBO", "PRVW", "ipco", "hdlr", "trak"}[gen.Intn(12)]
+		if gen.Bool() {
+			o.Follow = 16 + gen.Intn(64)
+		}
+		o.PadInner = gen.Bool()
+		data = gengen.EdgeBoxFile(o)
+		name = fmt.Sprintf("edgebox(layout=%d at=%d remain=%d size=%#x type=%s follow=%d padinner=%v)", o.Layout, o.At, o.Remain, o.Size, o.Type, o.Follow, o.PadInner)
+		names := []string{"Decode", "DecodeCR3", "PreviewCR3", "isobmff.Reader"}
+		if o.Layout >= 2 {
+			names = []string{"Decode", "DecodeHeif", "isobmff.Reader"}
+		}
+		e = harness.EntryByName(names[gen.Intn(len(names))])
+		hi = len(data)
+	} else if class == 4 {
 		n := 70000 + gen.Intn(630000)
 		val := strings.Repeat("A", n)
 		var pkt string
